@@ -546,10 +546,11 @@ func runSup(rp SupReplay) (*Case, error) {
 			d.cli.pause(true)
 			d.sup.Sync(d.ctx)
 			d.baseline()
+			// no view here: the new worker's getPipe may have failed already (its state is then "stopped"), or not yet
 			if op.New {
-				d.push(GApp("SSync", GSome(gSupCfg(op.Cfg)), gNoSink(d.cur)))
+				d.pushBlind(GApp("SSync", GSome(gSupCfg(op.Cfg)), gNoSink(d.cur)))
 			} else {
-				d.push(GApp("SSync", GNone, gNoSink(d.cur)))
+				d.pushBlind(GApp("SSync", GNone, gNoSink(d.cur)))
 			}
 			consumed := false
 			for t := 0; t < 500; t++ {
